@@ -16,6 +16,7 @@ package internal
 
 import (
 	"encoding/json"
+	"errors"
 	"fmt"
 	"log/slog"
 	"net/http"
@@ -40,33 +41,93 @@ type ResponseCache interface {
 
 type responseCache struct {
 	cache Cache
-	// refsSem serialises read-modify-write cycles of the variant indexes
-	// (a one-slot semaphore rather than a mutex, so that waiting for it is
-	// visible to testing/synctest).
-	refsSem chan struct{}
+	// sem makes changes to what is stored - an entry together with the index
+	// of its URL, or an invalidation - happen one at a time (a one-slot
+	// semaphore rather than a mutex, so that waiting for it is visible to
+	// testing/synctest).
+	sem chan struct{}
 }
 
 func NewResponseCache(cache Cache) *responseCache {
-	return &responseCache{cache: cache, refsSem: make(chan struct{}, 1)}
+	return &responseCache{cache: cache, sem: make(chan struct{}, 1)}
 }
 
-// RefsUpdater is implemented by response caches that can apply a change to a
-// variant index atomically with respect to other such changes.
-type RefsUpdater interface {
-	// UpdateRefs replaces the index of urlKey by update(current index).
-	UpdateRefs(urlKey string, update func(current ResponseRefs) ResponseRefs) error
+// ErrSuperseded is returned by [Committer.Commit] when its condition no
+// longer holds: what was to be written has been overtaken by another change.
+var ErrSuperseded = errors.New("httpcache: stored response changed meanwhile")
+
+// Committer is implemented by response caches that can change an entry and
+// the index of its URL in one step.
+type Committer interface {
+	// Commit stores entry under responseID and replaces the index of urlKey
+	// by update(current index), as one step with respect to other commits and
+	// [Committer.Atomically] sections. If unchanged is not nil it is asked
+	// inside that step; when it reports false nothing is written and
+	// [ErrSuperseded] is returned. Entries that update drops from the index
+	// are deleted.
+	Commit(
+		responseID string,
+		entry *Response,
+		urlKey string,
+		unchanged func() bool,
+		update func(current ResponseRefs) ResponseRefs,
+	) error
+	// Atomically runs fn as one such step.
+	Atomically(fn func())
 }
 
-var _ RefsUpdater = (*responseCache)(nil)
+var _ Committer = (*responseCache)(nil)
 
-func (r *responseCache) UpdateRefs(
+func (r *responseCache) Atomically(fn func()) {
+	r.sem <- struct{}{}
+	defer func() { <-r.sem }()
+	fn()
+}
+
+func (r *responseCache) Commit(
+	responseID string,
+	entry *Response,
 	urlKey string,
+	unchanged func() bool,
 	update func(current ResponseRefs) ResponseRefs,
-) error {
-	r.refsSem <- struct{}{}
-	defer func() { <-r.refsSem }()
-	current, _ := r.GetRefs(urlKey) // absent or unreadable: start afresh
-	return r.SetRefs(urlKey, update(current))
+) (err error) {
+	// Reading the body may take as long as the origin takes to send it: that
+	// happens before the step, not inside it.
+	data, err := entry.MarshalBinary()
+	if err != nil {
+		return newCacheError(
+			err,
+			"Set",
+			fmt.Sprintf("failed to marshal entry for key %q", responseID),
+		)
+	}
+	r.Atomically(func() {
+		if unchanged != nil && !unchanged() {
+			err = ErrSuperseded
+			return
+		}
+		if err = r.cache.Set(responseID, data); err != nil {
+			return
+		}
+		current, _ := r.GetRefs(urlKey) // absent or unreadable: start afresh
+		before := slices.Collect(current.ResponseIDs()) // (update may change current in place)
+		next := update(current)
+		if err = r.SetRefs(urlKey, next); err != nil {
+			return
+		}
+		// An entry the index no longer refers to (the response changed its
+		// Vary and with it its id) is unreachable: remove it.
+		kept := make(map[string]struct{}, len(next))
+		for id := range next.ResponseIDs() {
+			kept[id] = struct{}{}
+		}
+		for _, id := range before {
+			if _, ok := kept[id]; !ok {
+				_ = r.cache.Delete(id)
+			}
+		}
+	})
+	return err
 }
 
 var _ ResponseCache = (*responseCache)(nil)
